@@ -176,8 +176,10 @@ def gen_history(ctx, pattern, ntargets, fmt, mode, strings=False):
                 order += hot
         order += hot + names[:10]
     elif pattern == "random":
-        n = ntargets * 3
-        order = [names[min(ntargets - 1, int(rng.paretovariate(0.6)) - 1)] if rng.random() < 0.5 else rng.choice(names) for _ in range(n)]
+        n = ntargets * 2
+        first = list(names)
+        rng.shuffle(first)                     # every target once (so the distinct count really exceeds the capacity) ...
+        order = first + [names[min(ntargets - 1, int(rng.paretovariate(0.6)) - 1)] if rng.random() < 0.5 else rng.choice(names) for _ in range(n)]
     elif pattern == "small":
         order = [rng.choice(names) for _ in range(rng.randint(1, 24))]
     ops = []
